@@ -22,8 +22,16 @@ type activation struct {
 	script  execScript
 
 	ctx         context.Context
-	updatesRecv chan *remoteworker.CurrentState_Executing
-	entered     bool
+	outer       chan<- *remoteworker.CurrentState_Executing // the channel BuildClient reads
+	updatesRecv chan *remoteworker.CurrentState_Executing   // same, for cleanup()
+	// stackEntered/stackReturned: Execute() of the executor stack handed to
+	// BuildClient; entered/returned: Execute() of the innermost executor.
+	stackEntered        bool
+	stackReturned       bool
+	released            bool // the stack's Execute() has passed the shim's return gate: the completion is on its way to BuildClient
+	forwardMayBeBlocked bool
+	windDownSteps       int
+	entered             bool
 	returned    bool
 	// liveAtSupersede: the scheduler replaced this activation (execute or
 	// idle reply) while it had not returned yet, so the worker must cancel it.
@@ -148,11 +156,13 @@ func (o *oracle) onExecEnter(ctx context.Context, request *remoteworker.DesiredS
 			act = a
 		}
 	}
-	if act == nil {
+	if act == nil || act.n >= 1000 {
 		// Execute() for something the scheduler never handed out in a
 		// well-formed reply (rejected or duplicated request).
-		act = &activation{n: 1000 + len(o.acts), hash: request.GetActionDigest().GetHash() + strings.Repeat("?", 64), request: request, updates: map[*remoteworker.CurrentState_Executing]int{}, lastReported: -1}
-		o.acts = append(o.acts, act)
+		if act == nil {
+			act = &activation{n: 1000 + len(o.acts), hash: request.GetActionDigest().GetHash() + strings.Repeat("?", 64), request: request, updates: map[*remoteworker.CurrentState_Executing]int{}, lastReported: -1}
+			o.acts = append(o.acts, act)
+		}
 		w.violate("C08/executes-unrequested", fmt.Sprintf("the executor was started for action %s, which the worker had to reject or was never asked to run", request.GetActionDigest().GetHash()))
 	}
 	if act.entered {
@@ -165,7 +175,7 @@ func (o *oracle) onExecEnter(ctx context.Context, request *remoteworker.DesiredS
 	o.note("executor ENTER %s ctx-cancelled=%v script{%s}", act, ctx.Err() != nil, sc)
 	for _, a := range o.acts {
 		if a != act && a.entered && !a.returned {
-			w.violate("C08/two-actions-at-once", fmt.Sprintf("Execute() of %s was entered while %s had not returned: the worker runs two actions at once", act, a))
+			w.violate("C08/executions-overlap", fmt.Sprintf("Execute() of %s was entered while %s had not returned: the worker runs two actions at once", act, a))
 		}
 	}
 	for _, a := range o.acts {
@@ -180,6 +190,39 @@ func (o *oracle) onExecEnter(ctx context.Context, request *remoteworker.DesiredS
 		w.k.Probe("executor-entered-already-cancelled")
 	}
 	return act
+}
+
+// onStackEnter/onStackReturn are called by the shim BuildClient talks to.
+func (o *oracle) onStackEnter(request *remoteworker.DesiredState_Executing, outer chan<- *remoteworker.CurrentState_Executing, recv chan *remoteworker.CurrentState_Executing) *activation {
+	var act *activation
+	for _, a := range o.acts {
+		if a.request == request {
+			act = a
+		}
+	}
+	if act == nil {
+		// The innermost executor reports C08/executes-unrequested.
+		act = &activation{n: 1000 + len(o.acts), hash: request.GetActionDigest().GetHash() + strings.Repeat("?", 64), request: request, updates: map[*remoteworker.CurrentState_Executing]int{}, lastReported: -1}
+		o.acts = append(o.acts, act)
+	}
+	act.outer = outer
+	act.updatesRecv = recv
+	act.stackEntered = true
+	o.note("executor stack ENTER %s", act)
+	return act
+}
+
+func (o *oracle) onStackReturn(act *activation) {
+	if o.w.abandon {
+		return
+	}
+	act.stackReturned = true
+	o.note("executor stack RETURN %s", act)
+	if act.entered && !act.returned {
+		// Only a broken stack does this; the rules fire at the next
+		// Execute entry / request.
+		o.w.k.Probe("stack-returned-before-inner-executor")
+	}
 }
 
 func (o *oracle) onUpdateSent(act *activation, u *remoteworker.CurrentState_Executing, full bool) {
@@ -201,6 +244,15 @@ func (o *oracle) onExecReturn(act *activation, resp *remoteexecution.ExecuteResp
 	o.note("executor RETURN %s status=%s exit=%d ctx-cancelled=%v", act, status.FromProto(resp.Status).Code(), resp.Result.ExitCode, cancelled)
 	if !cancelled {
 		o.w.k.Probe("executor-finished-naturally")
+	}
+	if act.liveAtSupersede {
+		o.w.k.Probe("preempted-action-fully-stopped")
+		if act.windDownSteps > 0 {
+			o.w.k.Probe("preempted-action-fully-stopped-after-slow-wind-down")
+		}
+		if o.w.thread.Blocked() && !o.w.inSelect {
+			o.w.k.Probe("thread-was-waiting-for-preempted-action-to-stop")
+		}
 	}
 	if full {
 		o.w.k.Probe("completion-send-blocks-on-full-channel")
@@ -291,7 +343,7 @@ func (o *oracle) onRequest(ctx context.Context, req *remoteworker.SynchronizeReq
 			case cur.completedReported:
 				// Reported and acknowledged; calling that idle is honest.
 				o.cur = nil
-			case !cur.returned:
+			case !cur.released:
 				w.violate("C08/reports-idle-while-running", fmt.Sprintf("request %d claims the worker is idle, but the scheduler asked for %s, never withdrew it, and it has not finished", snap.seq, cur))
 			default:
 				w.violate("C08/completion-lost", fmt.Sprintf("request %d claims the worker is idle, but %s finished and its completion was never reported", snap.seq, cur))
@@ -356,7 +408,7 @@ func (o *oracle) onRequest(ctx context.Context, req *remoteworker.SynchronizeReq
 			w.violate("C08/report-regressed", fmt.Sprintf("request %d reports %s (update index %d) after a later state of %s (index %d, completed=%v) had been reported", snap.seq, snap.desc, idx, cur, cur.lastReported, cur.completedReported))
 		}
 		cur.lastReported = idx
-		if cur.returned {
+		if cur.released {
 			cur.requestsSinceDone++
 			if cur.requestsSinceDone >= 2 {
 				w.violate("C08/completion-not-reported", fmt.Sprintf("%s returned, but %d requests issued since still report it as running (%s)", cur, cur.requestsSinceDone, snap.desc))
